@@ -333,6 +333,19 @@ class Check:
             "(differential testing; bounded by generator quality)",
             "harness/extract_tables.py (translator of data tables, where used)",
         ] + list(getattr(self.mod, "TRUSTED", []))
+        if ok and self.tier == "thorough":
+            # independent re-check of the compiled property modules by leanchecker (Lean's external kernel re-checker)
+            t1 = time.time()
+            try:
+                r = subprocess.run(["lake", "env", "leanchecker", *self.mod.LEAN_MODULES], cwd=LEAN_DIR,
+                                   capture_output=True, text=True, timeout=1500)
+                cov["leanchecker"] = {"modules": list(self.mod.LEAN_MODULES), "rc": r.returncode,
+                                      "wall_s": round(time.time() - t1, 1)}
+                if r.returncode != 0:
+                    broken.append("leanchecker rejected " + ", ".join(self.mod.LEAN_MODULES) + ": "
+                                  + (r.stdout + r.stderr)[-300:])
+            except subprocess.TimeoutExpired:
+                cov["leanchecker"] = {"modules": list(self.mod.LEAN_MODULES), "rc": "timeout"}
         cov["not_proven_only_sampled"] = list(getattr(self.mod, "NOT_PROVEN", []))
         self.driver_ok = ok and os.path.exists(DRIVER)
         return broken
